@@ -321,6 +321,23 @@ def generated_code(R, tier):
             R.count('generated-code:untranslated'); R.count(f'generated-code:untranslated:{op}:{str(e)[:60]}')
             R.notes.append(f'generated-code: {op} {keys} in Algebra({algs.describe(spec)}) {oname} is outside the translated subset: {e}')
             continue
+        except Exception as e:  # noqa
+            # generating the function raised: with default options (cse on, not graded) the same operator on the same blades must raise too
+            try:
+                alg0 = algs.make_impl({k: v for k, v in spec.items() if k != 'graded'})
+                od0 = getattr(alg0, op)
+                od0[tuple(keys[0])] if ar == 1 else od0[tuple(tuple(k) for k in keys)]
+                default_raises = None
+            except Exception as e0:  # noqa
+                default_raises = type(e0).__name__
+            R.count('generated-code:generation-raises')
+            R.case(('generated-code-raises', algs.describe(spec), tuple(sorted(oname.items())), op, tuple(keys)), True)
+            if default_raises != type(e).__name__:
+                R.violation({'clause': 'fails-under-options', 'op': op, 'cse': cse, 'graded': graded},
+                            {'algebra': spec, 'options': oname, 'op': op, 'keys_in': [list(k) for k in keys], 'error': f'{type(e).__name__}: {e}'[:200]},
+                            f'generating {op} for keys {[list(k) for k in keys]} in Algebra({algs.describe(spec)}) with {oname} raised {type(e).__name__}: {e}'[:400]
+                            + f'; with default options: {default_raises or "no error"}')
+            continue
         m = c['meta']
         R.count('generated-code:validated-functions'); R.count('generated-code:level=' + m['level'])
         if m['lets']:
